@@ -30,7 +30,7 @@ ARRAY_OPS = ['setitem', 'append', 'iterappend', 'iterappend_empty', 'truncate', 
 RAGGED_OPS = ['append', 'append_empty', 'iterappend', 'iterappend_empty', 'truncate', 'delete', 'md_update',
               'md_setitem', 'md_pop', 'md_popitem', 'md_del']
 ORIGINS = ['default_open', 'at_creation', 'create_func', 'assigned', 'cycled', 'after_rplus_context',
-           'after_rplus_use', 'metadata_mode_then_reassigned']
+           'after_rplus_use', 'metadata_mode_then_reassigned', 'assigned_inside_context', 'assigned_live_generator']
 ARRAY_STATES = ['empty1d', 'empty2d', 'nonempty1d', 'nonempty2d']
 RAGGED_STATES = ['nosub', 'onlyempty', 'nonempty', 'nonempty_atom2']
 
@@ -101,6 +101,27 @@ def build(env, d, case):
         # assigning accessmode = 'r' to the handle afterwards must lock everything again
         h = opener(p)
         h.metadata.accessmode = 'r+'
+        h.accessmode = 'r'
+    elif origin == 'assigned_inside_context':
+        # the handle's own (default-mode) context is still open when the mode is assigned; the
+        # read-only call below runs inside it.  run_case closes it before the r+ phase.
+        import contextlib
+        h._verif_keep = contextlib.ExitStack()
+        h._verif_keep.enter_context(h.open_array() if case['kind'] == 'Array' else h.open_arrays())
+        h.accessmode = 'r'
+    elif origin == 'assigned_live_generator':
+        # a suspended chunk / subarray iterator keeps the array open while the mode is assigned
+        import contextlib
+        h._verif_keep = contextlib.ExitStack()
+        if case['kind'] == 'Array':
+            g = h.iterchunks(1)
+        else:
+            g = h.iter_arrays() if hasattr(h, 'iter_arrays') else iter(h)
+        try:
+            next(g, None)
+        except ValueError:      # an empty Array cannot be iterated at all: nothing stays open
+            pass
+        h._verif_keep.callback(g.close)
         h.accessmode = 'r'
     elif origin == 'after_rplus_use':
         # successful writes in r+, then the mode is assigned back to r
@@ -194,6 +215,8 @@ def run_case(case, env):
             res.fail(f"readonly-no-raise:{case['kind']}.{case['op']}:{emptiness}", f'{cell}: returned normally', **case)
         if not res.fails:
             # ---- after switching to r+ the same operation succeeds where valid
+            if hasattr(h, '_verif_keep'):
+                h._verif_keep.close()
             h.accessmode = 'r+'
             if valid_in_rplus(case, n):
                 res.count('mon.rplus_success')
